@@ -82,7 +82,7 @@ def run_case(case):
     """-> dict(obs=[snapshot after construction, after each call], error=None|str)"""
     from mc import workers
 
-    workers.ensure()
+    workers.ensure(case.get("devices", 1))
     try:
         pr, s = build(case)
     except Exception as e:
@@ -94,7 +94,10 @@ def run_case(case):
         except Exception as e:
             return {"obs": obs, "error": "solve(%d): %s: %s" % (k, type(e).__name__, str(e)[:200])}
         obs.append(snapshot(pr, s, res))
-    return {"obs": obs, "error": None, "layout": [s.n_devices, s.batch_processor.n_batches, s.batch_size, s.n_pad]}
+    perms = getattr(s, "_verif_sweep_permutations", None)
+    if perms is not None:
+        perms = [None if p is None else np.asarray(p).tolist() for p in perms]
+    return {"obs": obs, "error": None, "layout": [s.n_devices, s.batch_processor.n_batches, s.batch_size, s.n_pad], "perms": perms}
 
 
 def strip(case):
